@@ -807,7 +807,7 @@ def correspondence(rep, rng, tier):
     g(run, rng, tier)
     timing[name] = round(time.time() - t, 1)
   rep.extra['timing_s'] = timing
-  rep.extra['exhaustive'] = dict(
+  rep.extra['exhaustive_space'] = dict(
       all_strings_up_to_length=16 if tier == 'thorough' else 12,
       forced_paths_up_to_length=13 if tier == 'thorough' else 10,
       parameters='every m / block size / stream count / run length 0..length+1, wrap and no-wrap')
